@@ -10,15 +10,24 @@ from symx import core
 
 
 class SymFile(object):
-    def __init__(self, cells=None):
+    def __init__(self, cells=None, limit=None):
         self.cells = list(cells) if cells is not None else []
         self.pos = 0
+        self.limit = limit  # optional (symbolic) length: reads at or beyond it hit end of file
 
     # -- reading
     def read(self, n=-1):
         if n is None or n < 0:
             n = len(self.cells) - self.pos
         out = self.cells[self.pos : self.pos + n]
+        if self.limit is not None:
+            keep = []
+            for i, c in enumerate(out):
+                if self.pos + i < self.limit:  # forks when the limit is symbolic
+                    keep.append(c)
+                else:
+                    break
+            out = keep
         self.pos += len(out)
         return out
 
